@@ -94,6 +94,9 @@ func (s c04Srv) EditValidator(context.Context, *stakingtypes.MsgEditValidator) (
 	panic("not used")
 }
 func (s c04Srv) Delegate(ctx context.Context, m *stakingtypes.MsgDelegate) (*stakingtypes.MsgDelegateResponse, error) {
+	if err := c02Delegate(ctx, m); err != nil {
+		return nil, err
+	}
 	return &stakingtypes.MsgDelegateResponse{}, s.record(m)
 }
 func (s c04Srv) BeginRedelegate(ctx context.Context, m *stakingtypes.MsgBeginRedelegate) (*stakingtypes.MsgBeginRedelegateResponse, error) {
@@ -343,9 +346,8 @@ func VerifC04_Identity() {
 	if method == 0 && caller == named {
 		zz.Reach("mirrored")
 		zz.Assert(db.GetBalance(caller).Cmp(new(big.Int).Sub(bal0, amt.BigInt())) == 0, "the delegated amount is debited in the EVM's view of the delegator")
-	} else {
-		zz.Assert(db.GetBalance(caller).Cmp(bal0) == 0, "no other balance is touched in the EVM's view")
 	}
+	// (what happens to the EVM's view when the delegator is not the caller is C02's subject: VerifC02_StakingMirror)
 	zz.Reach("end")
 }
 
